@@ -20,10 +20,20 @@ pub struct C07;
 fn grids(tier: Tier) -> Vec<(u32, u32, u32)> {
     match tier {
         Tier::Quick => vec![(4, 5, 8), (8, 8, 8), (9, 5, 12), (16, 17, 4), (5, 16, 9)],
-        Tier::Thorough => vec![
-            (4, 5, 8), (8, 8, 8), (9, 5, 12), (16, 17, 4), (5, 16, 9), (12, 9, 17), (17, 4, 16), (8, 12, 5),
-            (16, 16, 16), (5, 4, 17), (9, 17, 8), (1, 1, 1), (3, 2, 7),
-        ],
+        Tier::Thorough => {
+            // every (width, height, depth) over sizes below, at and above each tile size
+            let sizes = [1u32, 4, 5, 8, 9, 16, 17];
+            let mut v = vec![];
+            for w in sizes {
+                for h in sizes {
+                    for d in sizes {
+                        v.push((w, h, d));
+                    }
+                }
+            }
+            v.extend([(9, 5, 12), (12, 9, 17), (3, 2, 7)]);
+            v
+        }
     }
 }
 
